@@ -10,3 +10,4 @@ CONSTANTS
  SeqLen = 3
  PairLen = 1
  Generic = TRUE
+ Deeps = {5}
